@@ -215,22 +215,27 @@ theorem rawSigHashes_ext {h : Heap} (hinv : InvX h) {a : Addr} {inIdx : Nat} :
       obtain ⟨i2, e2, he2⟩ := rawSigHash_ext hi h1
       exact rawSigHashes_ext hinv cs i2 ⟨e ++ e2, by rw [he2, he]; simp⟩ hr
 
-/-- **every operation of the extended catalogue preserves `InvX`** -/
-theorem invx_step {s : St} (hinv : InvX s.heap) (op : OpX) : InvX (HeapX.stepX s op).1.heap := by
+theorem trx_of_ext {h h' : Heap} (r : InvX h' ∧ ∃ e, h' = h ++ e) : TrX h h' := by
+  obtain ⟨hi, e, rfl⟩ := r
+  exact ⟨hi, fun _ o ho _ => ⟨o, getElem?_append_of_some e ho, rfl, rfl, rfl⟩⟩
+
+/-- **every operation of the extended catalogue** preserves `InvX` and leaves the slots of every
+    immutable object as they are -/
+theorem trx_step {s : St} (hinv : InvX s.heap) (op : OpX) : TrX s.heap (HeapX.stepX s op).1.heap := by
   cases op with
   | base b =>
-    show InvX (Model.Heap.step s b).1.heap
+    show TrX s.heap (Model.Heap.step s b).1.heap
     cases b with
     | sighash r sb i ht =>
       simp only [Model.Heap.step]
       (repeat' split) <;> first
-        | exact hinv
-        | (rename_i hr; exact (rawSigHash_ext hinv hr).1)
+        | (rename_i hr; exact trx_of_ext (rawSigHash_ext hinv hr))
+        | exact TrX.refl hinv
     | verify r i cs =>
       simp only [Model.Heap.step]
       (repeat' split) <;> first
-        | exact hinv
-        | (rename_i hr; exact (rawSigHashes_ext hinv cs hinv ⟨[], by simp⟩ hr).1)
+        | (rename_i hr; exact trx_of_ext (rawSigHashes_ext hinv cs hinv ⟨[], by simp⟩ hr))
+        | exact TrX.refl hinv
     | newBlock hd t => exact invx_base_core hinv _ (Or.inr ⟨hd, t, rfl⟩)
     | newTx v => exact invx_base_core hinv _ (Or.inl rfl)
     | newCTx v => exact invx_base_core hinv _ (Or.inl rfl)
@@ -262,6 +267,9 @@ theorem invx_step {s : St} (hinv : InvX s.heap) (op : OpX) : InvX (HeapX.stepX s
   | newTxDefault v => exact invx_newOps hinv _ (fun b hb => by cases hb)
   | newTxInFrom pr sc q => exact invx_newOps hinv _ (fun b hb => by cases hb)
 
+theorem invx_step {s : St} (hinv : InvX s.heap) (op : OpX) : InvX (HeapX.stepX s op).1.heap :=
+  (trx_step hinv op).inv
+
 theorem invx_init : InvX Model.Heap.init.heap := by
   have hi := inv_init'
   have h0 : Model.Heap.init.heap[emptyTuple]? = some { isMut := false, sc := .seq .stacks, refs := [] } := rfl
@@ -280,9 +288,14 @@ theorem invx_init : InvX Model.Heap.init.heap := by
       exact ⟨[10], by simp [mapO, kindAt, Model.Heap.init, emptyTuple, Scalars.kind], rfl⟩
     | a + 2, ho => simp [Model.Heap.init] at ho
 
-theorem invx_run (ops : List OpX) : ∀ {s : St}, InvX s.heap → InvX (HeapX.runX s ops).1.heap := by
+theorem trx_run (ops : List OpX) : ∀ {s : St}, InvX s.heap → TrX s.heap (HeapX.runX s ops).1.heap := by
   induction ops with
-  | nil => intro s h; exact h
-  | cons op ops ih => intro s h; simp only [HeapX.runX]; exact ih (invx_step h op)
+  | nil => intro s h; exact TrX.refl h
+  | cons op ops ih =>
+    intro s h
+    simp only [HeapX.runX]
+    exact (trx_step h op).trans (ih (invx_step h op))
+
+theorem invx_run (ops : List OpX) {s : St} (h : InvX s.heap) : InvX (HeapX.runX s ops).1.heap := (trx_run ops h).inv
 
 end BtcVerif.Model.Heap
